@@ -50,3 +50,8 @@ Proof. intros. split; reflexivity. Qed.
 (* the bounds-checked load really is None outside the slice: the model can observe an out-of-bounds load *)
 Lemma read_outside : forall m off, off < 0 \/ Z.of_nat (length m) < off + 8 -> read64 m off = None.
 Proof. intros. apply read_oob; [lia|]. lia. Qed.
+
+(* for every input longer than 240 bytes the 64-bit digest is the low half of the 128-bit digest: the
+   Spec-backed reference used by the harness on inputs too long to evaluate inside Coq (> 2 GiB stream) *)
+Lemma long_low64 : forall data, 240 < Z.of_nat (length data) -> snd (xxh3_128 data) = xxh3_64 data.
+Proof. intros d H. unfold xxh3_128, xxh3_64. ztest. reflexivity. Qed.
